@@ -724,10 +724,16 @@ def gen_keepalive2(rng, knobs=None):
     return opts, prog
 
 
+_FLOAT_SENSITIVE_MS = [v for v in range(1, 200000) if (v / 1000.0) * 1000 != v]
+
+
 def gen_setup_client(rng, knobs=None):
     """client configurations (periods incl. sub-second parts, MIME types, lease flag, setup payload) x transports/providers
     whose connect() does or does not suspend x requests issued while connecting"""
     ms = [1, 50, 250, 500, 999, 1000, 1500, 2500, 60000, 90500, 600000, 3600000, 86400000, 86401000, 172802500, 605400001, 2147483647]
+    # ... and whole-millisecond periods whose value in seconds times 1000 is not an integer in binary floating point (1001, 2010, 65100, ...):
+    # SETUP carries milliseconds, the configuration is a timedelta
+    ms = ms + rng.sample(_FLOAT_SENSITIVE_MS, 6)
     opts = {'mode': rng.choice(['tcp', 'msg']), 'keepalive_ms': rng.choice(ms), 'lifetime_ms': rng.choice(ms),
             'connect_suspends': rng.choice([0, 0, 1, 2, 3]), 'provider_suspends': rng.choice([0, 0, 1, 2]),
             'frag': rng.choice([None, 64])}
@@ -1232,6 +1238,57 @@ def gen_idwrap(rng, knobs=None):
             # an id may only be used again once nothing of its previous stream is in flight any more (with 2^30 ids per
             # endpoint the protocol relies on that; in the reduced id space the scenario has to make sure of it)
             prog.append(['pump'])
+    prog.append(['finish'])
+    return opts, prog
+
+
+def gen_adapters_client(rng, knobs=None):
+    """the mirror image of adapters_mixed: an Rx / ReactiveX CLIENT (channels fed by observables and back-pressure factories) against a
+    handler written with the core API, whose subscriber decides when credit flows - it may cancel before it ever requested anything, request
+    late, or in bursts - and whose scripted publisher ends the other direction at any point"""
+    k = dict(knobs or {})
+    version = k.get('version') or rng.choice(['reactivex', 'reactivex', 'rx'])
+    opts = {'mode': k.get('mode') or rng.choice(['tcp', 'tcp', 'msg']), 'frag': rng.choice([None, None, 64]), 'adapters': version,
+            'core_server': True, 'read_buffer': rng.choice([1, 7, 1024])}
+    prog = [['start'], ['pump']]
+    n_inter = rng.randint(1, 2)
+    for ref in range(n_inter):
+        sp = spec(rng, big=False)
+        n = rng.choice([0, 1, 2, 3, 5])
+        ppol = {'src': rng.choice(['factory', 'factory', 'observable']), 'items': items(rng, n, big=rng.random() < 0.2)}
+        pol = {'src': 'scripted', 'pub': True, 'sub': True}
+        first = rng.choice(['cancel', 'cancel', 'request', 'nothing', 'nothing'])
+        if first == 'cancel' and rng.random() < 0.5:
+            pol['resp_in_subscribe'] = ['cancel']           # the responder's subscriber gives up before it ever asked for anything
+        elif first == 'request' and rng.random() < 0.5:
+            pol['resp_in_subscribe'] = ['request', rng.choice([1, 3])]
+        prog.append(['channel', 'c', sp, rng.choice([1, 2, 5, None]), pol, True, ppol, True])
+        prog.append(['pump'])
+        if first == 'cancel' and 'resp_in_subscribe' not in pol:
+            prog.append(['cancel', ref, 'resp'])
+            prog.append(['pump'])
+        elif first == 'request' and 'resp_in_subscribe' not in pol:
+            prog.append(['request_n', ref, 'resp', rng.choice([1, 2, 2147483647])])
+            prog.append(['pump'])
+        for _ in range(rng.randint(1, 5)):
+            r = rng.random()
+            if r < 0.3:
+                spx = spec(rng, big=False)
+                prog.append(['emit', ref, 'resp', spx[0], spx[1], 1 if rng.random() < 0.3 else 0])
+            elif r < 0.5:
+                prog.append(['request_n', ref, 'resp', rng.choice([1, 1, 3, 2147483647])])
+            elif r < 0.62:
+                prog.append(['cancel', ref, 'resp'])
+            elif r < 0.75:
+                prog.append([rng.choice(['complete', 'complete', 'error']), ref, 'resp'])
+            elif r < 0.82:
+                prog.append(['dispose', ref])
+            prog.append(['pump'] if rng.random() < 0.8 else ['deliver', rng.choice(['c', 's']), rng.choice([1, 9, 40, None]) if opts['mode'] == 'tcp' else rng.choice([1, None])])
+        # both directions are brought to an end: whatever happened on the way, nothing of the channel may be left afterwards
+        prog.append(['complete', ref, 'resp'])
+        prog.append(['pump'])
+        prog.append(['request_n', ref, 'resp', 2147483647])
+        prog.append(['pump'])
     prog.append(['finish'])
     return opts, prog
 
